@@ -42,6 +42,21 @@ CHECKS = {
                      "default) over one symbolic conforming file; the lru_cache contract is modelled, all other cache state is the repo's own code. z3 "
                      "shows on every path that the last result meets the absolute spec oracle, i.e. equals a fresh reader's. Bounded model checking.",
                 design='DESIGN.md 7/C15'),
+    'C01': dict(text="The real converters (NumPy route; SEG-Y routes where listed in the evidence) run on a symbolic source cube under provenance "
+                     "stubs, then the real reader reads the produced file; for a symbolic voxel and all 64 positions of its cell z3 shows that the "
+                     "decoded voxel is the ZFP cell whose inputs are exactly the edge-clamped source samples, for every enumerated layout and all "
+                     "dimensions within the block bound. With the zfpy fixed-rate contract this is bit equality with the ZFP image of the "
+                     "edge-extended cube. Bounded model checking.",
+                design='DESIGN.md 7/C01'),
+    'C03': dict(text="(V) version codec, order, gates and setuptools_scm strings decided over all 8.4 million versions symbolically (Int / SymStr); "
+                     "(W) the real writers' actual write sequence on a symbolic source: every header field, table row, section length, footer "
+                     "offset/content/padding and the file length equal the spec model, and the recorded version selects the conventions used. "
+                     "Bounded model checking.",
+                design='DESIGN.md 7/C03'),
+    'C20': dict(text="The arrays the real producers feed to the hash object are recorded; for a symbolic stream position z3 shows the k-th hashed "
+                     "float is sample k of the source in trace order and the stream length is n_traces x n_samples, for every enumerated layout; the "
+                     "digest lands in bytes 960-979. SHA-1 itself is uninterpreted. Bounded model checking.",
+                design='DESIGN.md 7/C20'),
 }
 
 NOT_YET = "check not built yet in this session (work in progress; see DESIGN.md section 11 build order)"
